@@ -16,6 +16,14 @@ deleted afterwards), all VIOLATION with a shrunk replay, quick tier, seed 0:
   M12 docids() cached on (indexed_count, not_indexed_count)
 and the seeded changes C02_B (demotion to Set on unindex keeps working on the detached TreeSet; needs a posting
 that was promoted) and C02_F (applyEq hands the bare keyword to apply(): a tuple / bytes keyword is taken as a list).
+
+Round 4: "an iterable of keywords" - applyAny/applyAll/applyNotAny/applyNotAll, any()/all()/notany()/notall() and
+apply() (bare and {'query': ..}) get the keywords as list, tuple, set, frozenset, dict keys view, generator, iterator
+or map object, chosen by a hash of the command (props/c01.as_iterable); measured quick seed 0: of 163,000 such
+arguments list 18%, set 21% (the empty argument always hashes to set), generator 11%, iterator 10%, map 9%, tuple 10%,
+frozenset 10%, dict keys 10%.  Seeded C02_G (search(.., 'and') walks the query twice: a one-shot iterable is
+exhausted by the pre-check) was missed before and is caught now; one more of the class, VIOLATION on quick seed 0 in
+C02 and C13:  B  search() validates the keywords in a first pass over the query (both operators).
 """
 import importlib
 
@@ -46,7 +54,8 @@ RULE = ("small mode (84%): histories of 5-60 (thorough: up to 400) index_doc/rei
         "strings incl. () (iterable keywords), bytes incl. b'', num (1 == 1.0 == True etc. are ONE keyword whose "
         "spellings take turns; huge, negative, +-inf), 120 ints / 120 strings. After each op with prob. 1/4 and at "
         "the end Eq/NotEq/Any/NotAny/All/NotAll via index.applyX and via index.X(..).execute() with present/"
-        "absent/repeated keywords and the empty list; KeywordIndex.apply() itself with a list, a tuple, {'query': "
+        "absent/repeated keywords and the empty list, the argument handed over as list / tuple / set / frozenset / dict "
+        "keys view / generator / iterator / map (hash of the command); KeywordIndex.apply() itself with a list, a tuple, {'query': "
         "..} with operator and/or/absent, a bare string; the enumeration tuple (sometimes twice in a row); both "
         "BTrees families; list, tuple and set values; attribute and callable discriminators; occasionally the "
         "posting representations are compared too. non-trivial = the answers contain at least one non-empty and "
